@@ -128,6 +128,10 @@ type Scenario struct {
 	// with Preconnect, connections opened before the loop runs; no topology is injected - the first one arrives through the
 	// real probe path, so the scenario needs RefreshLoop and at least one 1 s TICK before traffic
 	RealBoot   bool
+	// RealRun (with RealBoot): the proxy is started through the REAL core.Run with exactly the configured values (MaxLen,
+	// ServerConns as written, 0 = not configured), so Run's option defaulting is part of the execution; the buffer sizes are
+	// the production ones (Run sets them)
+	RealRun bool
 	Seeds      []string
 	Preconnect bool
 	NoVariant  bool // never run this scenario as a configuration variant (multi-megabyte inputs: debug lines walk every byte)
@@ -470,7 +474,17 @@ func ExecuteWith(sc *Scenario, choose vsys.Chooser, boot func(w *World)) *World 
 		if sc.RealBoot {
 			w.Opts.RedisServers = strings.Join(sc.Seeds, ",")
 			w.Opts.RedisPreconnect = sc.Preconnect
-			vw, err := core.VerifBootReal(w.Handler, w.Ln.Fd, w.Opts)
+			var vw *core.VerifWorld
+			var err error
+			if sc.RealRun {
+				w.Opts.RedisMsgMaxLength, w.Opts.RedisServerConnections, w.Opts.RedisConnectionTimeout = sc.MaxLen, sc.ServerConns, 0
+				vw, err = core.VerifBootRun(w.Handler, w.Ln.Fd, w.Opts)
+				if err == nil {
+					w.Opts = vw.Options()
+				}
+			} else {
+				vw, err = core.VerifBootReal(w.Handler, w.Ln.Fd, w.Opts)
+			}
 			if err != nil {
 				w.RunErr = err
 				return
